@@ -555,13 +555,13 @@ pub fn c10_image(ci: &CleanImage, r: &mut Rng, stats: &mut C10Stats, out_viols: 
         push(c10_disabled(ci, &idir, &m, !on_boundary, desc, stats), out_viols);
     }
     // zero tails from every record boundary
-    let lens: &[usize] = &[1, 2, 3, 7, 8, 19, 20, 21, 27, 28, 29, 64, 1023, 1024, 1025, 33_792];
+    let lens: &[usize] = &[1, 2, 3, 7, 8, 19, 20, 21, 27, 28, 29, 64, 1023, 1024, 1025, 33_792, 65_536, 65_537, 70_000, 200_000];
     for b in &bounds {
         for zl in lens {
             if util::now_s() > deadline {
                 return false;
             }
-            if !thorough && *zl > 1025 && r.chance(3, 4) {
+            if !thorough && *zl > 1025 && r.chance(2, 3) {
                 continue;
             }
             let mut m = ci.img.clone();
